@@ -800,7 +800,7 @@ def stage_corpus():
 
 
 def main():
-    global THUNK, IFACE
+    global THUNK, IFACE, built
     ck.proof_gate(["MirVerif.Props.C03"], support_modules=["MirVerif.Model.Thunk", "MirVerif.Lemmas.Thunk", "MirVerif.Lemmas.ThunkInv"],
                   exes=["mirdrv_c03"])
     if not quick:
@@ -810,6 +810,7 @@ def main():
         ("c03_thunk", [os.path.join(H, "c03_thunk.c"), os.path.join(H, "c03_regs.S"), os.path.join(REPO, "mir.c")], ["-O1", "-g", "-DNDEBUG", "-w"]),
         ("c03_iface", [os.path.join(H, "c03_iface.c"), os.path.join(H, "c03_regs.S"), os.path.join(REPO, "mir.c"), os.path.join(REPO, "mir-gen.c")],
          ["-O1", "-g", "-DNDEBUG", "-w"], [os.path.join(H, "engine.c")]),
+        ("c03_c2m", [os.path.join(REPO, f) for f in ("mir.c", "mir-gen.c", "c2mir/c2mir.c", "c2mir/c2mir-driver.c")], ["-O1", "-DNDEBUG", "-w"]),
     ])
     THUNK, IFACE = built["c03_thunk"], built["c03_iface"]
     for nme, exe in built.items():
@@ -841,11 +842,8 @@ def main():
     ck.stage("programs", programs=nprog, evaluations=nev)
     nreal = 0
     if True:
-        c2m = ck.cc("c03_c2m", [os.path.join(REPO, f) for f in ("mir.c", "mir-gen.c", "c2mir/c2mir.c", "c2mir/c2mir-driver.c")],
-                    flags=["-O1", "-DNDEBUG", "-w"])
-        if c2m is None:
-            ck.broken_ties.append({"kind": "harness-compile", "name": "c03_c2m", "log": getattr(ck, "last_cc_log", "")[-1500:]})
-        else:
+        c2m = built["c03_c2m"]
+        if c2m is not None:
             rst2 = stage_real(c2m)
             nreal = rst2["compared"] * 4
             ck.stage("real_programs", **rst2)
